@@ -4,6 +4,7 @@ import (
 	"fmt"
 	"math"
 	"reflect"
+	"strings"
 	"time"
 
 	"github.com/ThreeDotsLabs/watermill/components/cqrs"
@@ -121,7 +122,20 @@ func jsonVal[T any](v *T, strs ...string) val {
 	}
 }
 
+// EvBlob carries a long text: payloads of a few KiB (buffer reuse inside a marshaler would show here).
+type EvBlob struct {
+	Text string `json:"text"`
+	N    int    `json:"n"`
+}
+
 func genJSONVal(r *vlib.Rand) val {
+	if r.Chance(0.12) {
+		n := []int{0, 900, 2500, 3100, 3600, 4000, 4300, 6000}[r.Intn(8)]
+		b := EvBlob{Text: strings.Repeat(string(rune('a'+r.Intn(26))), n), N: r.Intn(1000)}
+		v := jsonVal(&b)
+		v.desc = fmt.Sprintf("*c16.EvBlob{Text: %d bytes, N: %d}", n, b.N)
+		return v
+	}
 	switch r.Intn(6) {
 	case 0:
 		s := genScalar(r)
@@ -394,6 +408,33 @@ func runCodec(e *vlib.Env, res *vlib.Result, kind string, gen func(r *vlib.Rand)
 	var sigParts []any
 	nonZero, viaCopy := 0, 0
 	var samples []any
+	// every marshaled message is also kept and decoded again after ALL values have been marshaled: the bytes handed out by
+	// Marshal belong to the message and must not change when the marshaler is used again
+	type heldMsg struct {
+		m    cqrs.CommandEventMarshaler
+		msg  *message.Message
+		snap []byte
+		v    val
+	}
+	var held []heldMsg
+	defer func() {
+		if res.Failed() {
+			return
+		}
+		for _, h := range held {
+			res.Events++
+			if string(h.msg.Payload) != string(h.snap) {
+				res.Fail("cqrs-payload-changed-later", "%s marshaler: the payload of a message returned by Marshal changed after later Marshal calls (value %s): was %s, is %s", kind, clip(h.v.desc, 200), showBytes(h.snap), showBytes(h.msg.Payload))
+				return
+			}
+			out := h.v.fresh()
+			if err := h.m.Unmarshal(h.msg, out); err != nil || !h.v.equal(h.v.v, out) {
+				res.Fail("cqrs-roundtrip", "%s marshaler: a message kept while other values were marshaled no longer decodes to its value %s (err %v)", kind, clip(h.v.desc, 200), err)
+				return
+			}
+		}
+		res.Count("held_messages_decoded_after_all_marshals", len(held))
+	}()
 	for i := 0; i < nVals; i++ {
 		v := gen(e.R)
 		for _, s := range v.strs {
@@ -450,6 +491,7 @@ func runCodec(e *vlib.Env, res *vlib.Result, kind string, gen func(r *vlib.Rand)
 			fail("cqrs-name", "NameFromMessage = %s, Name(value) = %s (metadata %s)", showStr(gotName), showStr(wantName), showMeta(msg.Metadata))
 			break
 		}
+		held = append(held, heldMsg{m: m, msg: msg, snap: append([]byte(nil), msg.Payload...), v: v})
 		wire := msg
 		if e.R.Bool() {
 			wire = msg.Copy() // what a subscriber gets from a Pub/Sub
